@@ -57,7 +57,7 @@ DOMAINS = {
     'bool': [False, True, None, 'MISSING'],
     'date': [D(2020, 1, 1), D(2021, 6, 1), None, 'MISSING'],
     'decimal': [decimal.Decimal(1), decimal.Decimal(2), None, 'MISSING'],
-    'callint': [('call', 1), ('call', 2), None, 'MISSING'],
+    'callint': [('call', 1), ('call', 2), ('call', None), None, 'MISSING'],
     'pair': [(a, b) for a in (1, 2, None) for b in (1, 2, None)],
     'tuple-item': [1, 2, 3],
     'plain-item': [1, 2, 3],
@@ -118,7 +118,7 @@ def build(ktype, syms, mapping):
                 keys.append((ABSENT,))
             elif isinstance(v, tuple) and v[0] == 'call':
                 attrs['k'] = (lambda r=v[1]: r)
-                keys.append((v[1],))
+                keys.append((ABSENT if v[1] is None else v[1],))
             else:
                 attrs['k'] = v
                 keys.append((v,))
